@@ -59,7 +59,8 @@ def sbml_domain(rng, spec):
             m["compartment"] = "c"
         m["_bound"] = 0
     for obj in s["mets"] + s["rxns"] + s["genes"] + [s]:
-        obj["notes"] = {k: v for k, v in obj["notes"].items() if v != "" and k != "_"}
+        # SBML notes are text: only string values (non-string note values are exercised by C11)
+        obj["notes"] = {k: v for k, v in obj["notes"].items() if isinstance(v, str) and v != "" and k != "_"}
         obj["annotation"] = {k: v for k, v in obj["annotation"].items() if not (isinstance(v, list) and len(v) < 2)
                              and k in ("sbo", "kegg.compound", "chebi", "bigg.metabolite")}
         if "sbo" in obj["annotation"] and obj is not s and "stoich" not in obj:
